@@ -313,6 +313,13 @@ def mon_C20(case, res):
             elr = (p["fundamentalWeight"] * flr + p["chartWeight"] * clr * (1 if p["isChartFollowing"] else -1) + p["noiseWeight"] * nlr) / w
             efp = s["mp"] * math.exp(elr * tw)
             rel = abs(efp / s["mp"] - 1)
+            if elr == 0.0 and efp == s["mp"]:
+                # an exact tie (every term of the expected return is exactly zero): the expected price neither exceeds the market
+                # price nor is below it, so the agent must stay silent on this market
+                if mine:
+                    out.append(V("fcn-buys-iff-expected-price-above-market-price-quoting-shaded-price", 0, market=s["id"],
+                                 got=[(o[2], o[3]) for o in mine], want=[], expected_price=efp, market_price=s["mp"], tie=True))
+                continue
             if rel < 1e-9:
                 continue             # inconclusive-float: the expected price is within rounding of the market price
             if efp > s["mp"]:
